@@ -7,8 +7,10 @@
 (***************************************************************************)
 EXTENDS Integers, Sequences, FiniteSets, TLC, Json
 CONSTANTS MaxLen
-HMethods == {"A.m1", "A.m2", "B.m1"}
-HServes == ("local" :> {"A.m1", "A.m2"}) @@ ("c1" :> {"A.m1", "A.m2"}) @@ ("c2" :> {"A.m1", "A.m2", "B.m1"}) @@ ("c3" :> {"B.m1"})
+\* (B.m2's route /g/a/m1/{s}/b lies below A.m1's /g/a/m1/{s}: two services on different backends share a routing node
+\* whose only child is a variable, so pruning after a drop must not take the sibling's routes with it)
+HMethods == {"A.m1", "A.m2", "B.m1", "B.m2"}
+HServes == ("local" :> {"A.m1", "A.m2"}) @@ ("c1" :> {"A.m1", "A.m2"}) @@ ("c2" :> {"A.m1", "A.m2", "B.m1", "B.m2"}) @@ ("c3" :> {"B.m1", "B.m2"})
 Conns == {"c1", "c2", "c3"}
 
 VARIABLES live, conns, localDone, hist
